@@ -34,7 +34,7 @@ kani_unit("f64", "winter-math", F64, "kani/math_f64.rs", "field::f64", [
     H("f64_eq_contract", ["C07", "C08"], ["f64::PartialEq::eq"], "forall a,b < M: (a == b) <=> same raw word <=> same residue", timeout=900),
     H("f64_serde_contract", ["C07", "C12"], ["f64::Serializable::write_into", "f64::Deserializable::read_from"],
       "write_into emits le(as_int) (8 bytes); read_from(write_into(a)) == a and consumes exactly 8 bytes"),
-    H("f64_read_from_contract", ["C07", "C12", "C06"], ["f64::Deserializable::read_from"],
+    H("f64_read_from_contract", ["C07", "C12", "C06", "C19"], ["f64::Deserializable::read_from"],
       "forall byte strings of length <= 9: Ok(e) iff >= 8 bytes and le < M; e canonical, denotes le; exactly 8 bytes consumed; never panics"),
     H("f64_as_bytes_contract", ["C07"], ["f64::AsBytes::as_bytes", "f64::elements_as_bytes"],
       "as_bytes/elements_as_bytes expose the 8-byte raw words (pointer checks on)"),
@@ -57,7 +57,7 @@ kani_unit("f62", "winter-math", "math/src/field/f62/mod.rs", "kani/math_f62.rs",
     H("f62_try_from_contract", ["C07"], ["f62::TryFrom<u64|u128|[u8;8]>"], "Ok iff v < M; representative < 2M"),
     H("f62_try_from_slice_contract", ["C07", "C19"], ["f62::TryFrom<&[u8]>", "f62::Randomizable::from_random_bytes"],
       "Ok/Some iff len == 8 and le(bytes) < M; representative < 2M"),
-    H("f62_read_from_contract", ["C07", "C12", "C06"], ["f62::Deserializable::read_from"],
+    H("f62_read_from_contract", ["C07", "C12", "C06", "C19"], ["f62::Deserializable::read_from"],
       "forall byte strings <= 9 bytes: Ok iff >= 8 bytes and le < M; representative < 2M; exactly 8 bytes consumed; never panics"),
     H("f62_write_into_canonical_contract", ["C12", "C07"], ["f62::Serializable::write_into", "f62::StarkField::as_int"],
       "forall representatives a < 2M: write_into appends 8 bytes whose little-endian value is below M (canonical; the library's decoder accepts it); both representatives of zero (0 and M) encode as 0", timeout=900),
@@ -80,7 +80,7 @@ kani_unit("f128", "winter-math", "math/src/field/f128/mod.rs", "kani/math_f128.r
       "Ok/Some iff len == 16 and le(bytes) < M; element canonical and equal to le(bytes)"),
     H("f128_serde_contract", ["C07", "C12"], ["f128::Serializable::write_into", "f128::Deserializable::read_from", "f128::AsBytes::as_bytes"],
       "write_into emits le(residue) (16 bytes); read_from(write_into(a)) == a, all bytes consumed; as_bytes likewise"),
-    H("f128_read_from_contract", ["C07", "C12", "C06"], ["f128::Deserializable::read_from"],
+    H("f128_read_from_contract", ["C07", "C12", "C06", "C19"], ["f128::Deserializable::read_from"],
       "forall byte strings <= 17 bytes: Ok iff >= 16 bytes and le < M; element == le; exactly 16 bytes consumed; never panics"),
     H("f128_add64_with_carry_contract", ["C07"], ["f128::add64_with_carry"], "exact 65-bit sum of two limbs and a carry"),
     H("f128_add_192_contract", ["C07"], ["f128::add_192x192"], "three-limb addition == 192-bit sum modulo 2^192"),
